@@ -24,7 +24,7 @@ CHECKS = {
     "C08": ("lifecycle", LIFE_TXT % "C08_* (at most one alive command per replica as a state invariant; start/restart results and spawn counts; no relaunch after an acknowledged stop; no vanished instance) on sequential and overlapping API histories", LIFE_NOTE),
     "C09": ("lifecycle", LIFE_TXT % "C09_* (legal per-instance transitions at every State event; reaped code; interval-observed snapshots; at rest: no transient state, terminal means dead, failed means non-zero, exit code truth)", LIFE_NOTE),
     "C10": ("lifecycle", LIFE_TXT % "C10_* (Ready only after a success of the current launch, health forgotten, fatal exactly at the threshold-th consecutive failure, fatal then policy, no probe effect after the end) with probe completions injected through the real prober path; plus record validation of the effective probe parameters (PCConfig C10_EffectiveParamsLegal over a parameter grid)", LIFE_NOTE),
-    "C12": ("lifecycle", LIFE_TXT % "C12_NoSignalWhileDependentAlive at every Signal of an ordered shutdown + completion", LIFE_NOTE),
+    "C12": ("lifecycle", LIFE_TXT % "C12_NoSignalWhileDependentAlive at every Signal of an ordered shutdown + completion; plus record validation (PCScale C12_DependentsFirstDuringRemoval) of ordered shutdowns begun while a scale-down / update is removing a slow dependent", LIFE_NOTE),
     "C06": ("records", "Real bash process trees stopped through StopProcess / ShutDownProject and through SIGTERM / SIGINT / SIGHUP sent to the built binary; every member logs the signals it receives and deaths are observed through /proc; TLC evaluates C06_* (PCStop: signal as configured, group unless parent_only, SIGKILL not before the time-out and after it if still alive, shutdown command environment / directory, SIGKILL only if the command failed, no reachable survivor) on every scenario record and explores the design model of the escalation exhaustively over the parameter space.", "Exploration level: real processes, the kernel schedules them; the instant of the stop is sampled. Trusted: TLC, /proc, bash trap semantics (background children of a non-interactive bash ignore SIGINT: signal 2 is only used on leaf trees)."),
     "C07": ("records", REC_TXT % ("PCPlan", "loader.Load / NewProjectRunner / GetDependenciesOrderNames / Run()", "C07_* (reject iff cycle or dangling, exact topological order, selection = closure, deferred never launched, loaded plan runs to completion)"), REC_NOTE),
     "C15": ("records", REC_TXT % ("PCConfig (merge)", "loader on generated file lists and extends chains", "C15_* (process union, override wins, environment and depends_on merged by key byte-exactly, extends = explicit list modulo working-dir resolution)"), REC_NOTE),
